@@ -40,3 +40,62 @@ pub fn h_c22_col_to_num_to_col() {
     }
     reach("C22.str");
 }
+
+// ---- reference and range addresses: print (display A1 form and stored R1C1 form) -> real lexer + parser -> same node
+use super::st::*;
+use crate::expressions::lexer::LexerMode;
+use crate::expressions::parser::stringify::{to_localized_string, to_rc_format};
+use crate::expressions::parser::{Node, Parser};
+use crate::expressions::types::CellReferenceRC;
+use std::collections::HashMap;
+
+const CTX_ROW: i32 = 5;
+const CTX_COL: i32 = 5;
+
+fn print_parse(node: &Node, display: bool) -> Node {
+    let locale = locale_with(".", ",");
+    let ctx = CellReferenceRC { sheet: "Sheet1".to_string(), row: CTX_ROW, column: CTX_COL };
+    let mut parser = Parser::new(vec!["Sheet1".to_string()], vec![], HashMap::new(), &locale, language_en());
+    let text = if display { to_localized_string(node, &ctx, &locale, language_en()) } else { to_rc_format(node) };
+    parser.set_lexer_mode(if display { LexerMode::A1 } else { LexerMode::R1C1 });
+    parser.parse(&text, &ctx)
+}
+fn pick_row(i: u8) -> i32 { if i == 0 { 1 } else if i == 1 { 2 } else if i == 2 { CTX_ROW + 1 } else if i == 3 { 1_048_575 } else { 1_048_576 } }
+fn pick_col(i: u8) -> i32 { if i == 0 { 1 } else if i == 1 { 2 } else if i == 2 { CTX_COL + 1 } else if i == 3 { 16_383 } else { 16_384 } }
+
+/// a single cell address at the corners / next to the formula cell / ordinary, every `$` combination, both text forms
+fn reference_roundtrip(display: bool, id: &'static str) {
+    let (ri, ci) = (any_u8(), any_u8());
+    assume((ri < 5) & (ci < 5));
+    let (absolute_row, absolute_column) = (any_bool(), any_bool());
+    let (r, c) = (pick_row(ri), pick_col(ci));
+    let node = Node::ReferenceKind {
+        sheet_name: None, sheet_index: 0, absolute_row, absolute_column,
+        row: if absolute_row { r } else { r - CTX_ROW },
+        column: if absolute_column { c } else { c - CTX_COL },
+    };
+    check(id, print_parse(&node, display) == node);
+}
+pub fn h_c22_reference_display_form() { reference_roundtrip(true, "C22.reference.display_form_parses_back"); reach("C22.reference.display"); }
+pub fn h_c22_reference_stored_form() { reference_roundtrip(false, "C22.reference.stored_form_parses_back"); reach("C22.reference.stored"); }
+
+/// a range whose corners come from {whole grid, from the line after the formula cell to the last line, from the first
+/// line, two ordinary lines, one line}, every `$` combination on the four coordinates, both text forms
+fn range_roundtrip(display: bool, id: &'static str) {
+    let (rp, cp) = (any_u8(), any_u8());
+    assume((rp < 5) & (cp < 4));
+    let (r1, r2) = if rp == 0 { (1, 1_048_576) } else if rp == 1 { (CTX_ROW + 1, 1_048_576) } else if rp == 2 { (1, CTX_ROW + 1) }
+        else if rp == 3 { (2, 1_048_575) } else { (CTX_ROW + 1, CTX_ROW + 1) };
+    let (c1, c2) = if cp == 0 { (1, 16_384) } else if cp == 1 { (CTX_COL + 1, 16_384) } else if cp == 2 { (1, CTX_COL + 1) } else { (2, 3) };
+    let (absolute_row1, absolute_column1, absolute_row2, absolute_column2) = (any_bool(), any_bool(), any_bool(), any_bool());
+    let node = Node::RangeKind {
+        sheet_name: None, sheet_index: 0, absolute_row1, absolute_column1, absolute_row2, absolute_column2,
+        row1: if absolute_row1 { r1 } else { r1 - CTX_ROW },
+        column1: if absolute_column1 { c1 } else { c1 - CTX_COL },
+        row2: if absolute_row2 { r2 } else { r2 - CTX_ROW },
+        column2: if absolute_column2 { c2 } else { c2 - CTX_COL },
+    };
+    check(id, print_parse(&node, display) == node);
+}
+pub fn h_c22_range_display_form() { range_roundtrip(true, "C22.range.display_form_parses_back"); reach("C22.range.display"); }
+pub fn h_c22_range_stored_form() { range_roundtrip(false, "C22.range.stored_form_parses_back"); reach("C22.range.stored"); }
